@@ -539,6 +539,49 @@ func (w *world) reachable(owned map[string]bool) map[string]bool {
 	return seen
 }
 
+// canCarry: (O1) the struct types of the package that a value living between two calls can be made of:
+// those reachable through field types (owned types entered too) from the root type or from the type of
+// a package-level variable.  A struct type outside this set occurs in no field and in no package-level
+// variable, neither directly nor inside another struct, slice, map, array, pointer or channel type:
+// its values exist only in local variables, parameters and results (a view handed to the caller, such
+// as a slice of (kind, *Entry) pairs built on every call), so whatever it holds is not kept by the
+// Modules value.  (Cells of interface type mention no struct type; they are as invisible to this
+// relation as they are to the holder relation of checkOwnership itself.)
+func (w *world) canCarry() map[string]bool {
+	seen := map[string]bool{w.cfg.Root: true}
+	work := []string{w.cfg.Root}
+	sc := w.pkg.Types.Scope()
+	for _, n := range sc.Names() {
+		if v, ok := sc.Lookup(n).(*types.Var); ok {
+			m := map[string]bool{}
+			w.mentioned(v.Type(), m, map[types.Type]bool{})
+			for t := range m {
+				if !seen[t] {
+					seen[t] = true
+					work = append(work, t)
+				}
+			}
+		}
+	}
+	for len(work) > 0 {
+		s := work[0]
+		work = work[1:]
+		st := w.structs[s]
+		if st == nil {
+			continue
+		}
+		for i := 0; i < st.NumFields(); i++ {
+			for m := range w.fieldMentions(st, i) {
+				if !seen[m] {
+					seen[m] = true
+					work = append(work, m)
+				}
+			}
+		}
+	}
+	return seen
+}
+
 // implementsNode: AST node types (they implement the package's Node interface).
 func (w *world) isNode(name string) bool {
 	obj := w.pkg.Types.Scope().Lookup("Node")
@@ -564,6 +607,7 @@ func (w *world) checkOwnership() (map[string]bool, []ownRes) {
 		owned[o.Type] = true
 	}
 	var res []ownRes
+	carry := w.canCarry()
 	for _, o := range w.cfg.Owned {
 		by := map[string]bool{}
 		for _, b := range o.By {
@@ -579,6 +623,15 @@ func (w *world) checkOwnership() (map[string]bool, []ownRes) {
 				continue
 			}
 			st := w.structs[sname]
+			if !carry[sname] {
+				// (O1) a type of locals, parameters and results only: it keeps nothing between calls
+				for i := 0; i < st.NumFields(); i++ {
+					if w.fieldMentions(st, i)[o.Type] {
+						w.note("%s.%s holds %s, but no field and no package-level variable is (made) of type %s: a value of it cannot outlive the call that builds it", sname, st.Field(i).Name(), o.Type, sname)
+					}
+				}
+				continue
+			}
 			for i := 0; i < st.NumFields(); i++ {
 				if w.fieldMentions(st, i)[o.Type] && !by[sname+"."+st.Field(i).Name()] {
 					r.OK = false
